@@ -68,48 +68,68 @@ def Routine (m : Msg) : Prop :=
   (m.mtype == mLogon) = false ∧ (m.mtype == mSequenceReset) = false ∧ (m.mtype == mLogout) = false ∧
   (m.mtype == mResendRequest) = false
 
-/-- first part of `_process_message` on ACTIVE: no early return, `is_valid_msg_num = True` -/
-theorem processHead_active (env : Env) (c : Conn) (m : Msg) (ha : c.state = st_ACTIVE) (h : InSeq c m)
+/-- first part of `_process_message` in a logged-on state (≥ 8: ACTIVE, RESENDREQ_AWAITING,
+RESENDREQ_HANDLING, RECV_SEQNUM_TOO_HIGH, …) for the expected number: no early return,
+`is_valid_msg_num = True` -/
+theorem processHead_on (env : Env) (c : Conn) (m : Msg) (h8 : 8 ≤ c.state) (h : InSeq c m)
     (hr : Routine m) : processHead env m c = ⟨.ok (some (true, c.sess.nextIn)), c, []⟩ := by
   obtain ⟨v, hv, hn⟩ := h.seqv
   obtain ⟨r1, r2, r3, _⟩ := hr
-  have hne : (m.mtype != mLogon) = true := by simp [bne, r1]
-  simp [processHead, ha, r1, r2, r3, get_of_get? hv, int_of hn, checkSeqnumGaps, st_ACTIVE,
-    st_NETWORK_CONN_ESTABLISHED, st_LOGON_INITIAL_SENT, st_DISCONNECTED_BROKEN_CONN]
+  have g6 : 6 ≤ c.state := by omega
+  have n6 : ¬ (c.state = 6) := by omega
+  have n7 : ¬ (c.state = 7) := by omega
+  have n3 : ¬ (c.state ≤ 3) := by omega
+  simp [processHead, r1, r2, r3, get_of_get? hv, int_of hn, checkSeqnumGaps,
+    st_NETWORK_CONN_ESTABLISHED, st_LOGON_INITIAL_SENT, st_DISCONNECTED_BROKEN_CONN, g6, n6, n7, n3]
 
-/-- outcome of `_finalize_message` for the expected number: counter advanced, `lastTime := now` while
-connected (fix 5623bd4: not on a connection the dispatch has just disconnected), frame journaled – or
-DuplicateSeqNoError (escaping) when the journal already holds that number -/
+/-- `_finalize_message` ends the wait for a resend: RESENDREQ_AWAITING and the accepted number has reached
+the recorded watermark -/
+def promoted (c : Conn) : Bool := c.state == st_RESENDREQ_AWAITING && decide (c.maxResend ≤ c.sess.nextIn)
+
+/-- outcome of `_finalize_message` for the expected number: counter advanced; RESENDREQ_AWAITING → ACTIVE
+(with `on_state_change`) once the watermark is reached; `lastTime := now` while connected (fix 5623bd4: not
+on a connection the dispatch has just disconnected); frame journaled – or DuplicateSeqNoError (escaping)
+when the journal already holds that number -/
 def finalized (env : Env) (c : Conn) (m : Msg) : Conn × List Effect :=
-  let c1 : Conn := { c with sess := { c.sess with nextIn := c.sess.nextIn + 1 },
-                            lastTime := if c.state > st_DISCONNECTED_BROKEN_CONN then env.now else c.lastTime }
+  let st := if promoted c then st_ACTIVE else c.state
+  let c1 : Conn := { c with sess := { c.sess with nextIn := c.sess.nextIn + 1 }, state := st,
+                            wasActive := c.wasActive || promoted c,
+                            maxResend := if promoted c then 0 else c.maxResend,
+                            lastTime := if st > st_DISCONNECTED_BROKEN_CONN then env.now else c.lastTime }
+  let e0 : List Effect := if promoted c then [.onState st_ACTIVE] else []
   match c.journal.persist .inbound c.sess.nextIn m with
-  | none => (c1, [.raised .duplicateSeqNo])
-  | some j => ({ c1 with journal := j }, [])
+  | none => (c1, e0 ++ [.raised .duplicateSeqNo])
+  | some j => ({ c1 with journal := j }, e0)
 
 theorem finalizeMessage_inseq (env : Env) (c : Conn) (m : Msg) (h : InSeq c m)
-    (hm : (m.mtype == mSequenceReset) = false) (hst : (c.state == st_RESENDREQ_AWAITING) = false) :
+    (hm : (m.mtype == mSequenceReset) = false) (hmr : c.state = st_RESENDREQ_AWAITING → 0 < c.maxResend) :
     (finalizeMessage env m).run c = finalized env c m := by
   obtain ⟨v, hv, hn⟩ := h.seqv
   have hp := h.pos
   have hle : ¬ (c.sess.nextIn ≤ 0) := by omega
-  have hst' : ¬ (c.state = st_RESENDREQ_AWAITING) := by simpa using hst
-  unfold finalized
-  by_cases hc : c.state > st_DISCONNECTED_BROKEN_CONN <;>
-  cases hj : c.journal.persist .inbound c.sess.nextIn m <;>
-    simp [M.run, finalizeMessage, setNextNumIn, hm, has_of_get? hv, get_of_get? hv, int_of hn, hle, hst',
-      persistInbound, hv, hn, hj, hc]
+  unfold finalized promoted
+  by_cases hw : c.state = st_RESENDREQ_AWAITING
+  · have hmr' := hmr hw
+    by_cases hup : c.maxResend ≤ c.sess.nextIn <;>
+    cases hj : c.journal.persist .inbound c.sess.nextIn m <;>
+      simp [M.run, finalizeMessage, setNextNumIn, hm, has_of_get? hv, get_of_get? hv, int_of hn, hle, hw,
+        persistInbound, hv, hn, hj, hup, hmr', M.assert, stateSet, pre, st_ACTIVE, st_RESENDREQ_AWAITING,
+        st_DISCONNECTED_BROKEN_CONN]
+  · by_cases hc : c.state > st_DISCONNECTED_BROKEN_CONN <;>
+    cases hj : c.journal.persist .inbound c.sess.nextIn m <;>
+      simp [M.run, finalizeMessage, setNextNumIn, hm, has_of_get? hv, get_of_get? hv, int_of hn, hle, hw,
+        persistInbound, hv, hn, hj, hc]
 
-/-- `_process_message` for a valid in-sequence routine frame on ACTIVE = integrity check (passes), head
+/-- `_process_message` for a valid in-sequence routine frame in a logged-on state = integrity check (passes), head
 (passes), the swallowed dispatch, then `_finalize_message` on whatever the dispatch left behind -/
-theorem processMessage_active (sr : Msg → Bool) (env : Env) (c c1 : Conn) (m : Msg) (e1 : List Effect)
-    (ha : c.state = st_ACTIVE) (h : InSeq c m) (hr : Routine m)
+theorem processMessage_on (sr : Msg → Bool) (env : Env) (c c1 : Conn) (m : Msg) (e1 : List Effect)
+    (h8 : 8 ≤ c.state) (h : InSeq c m) (hr : Routine m)
     (hd : swallow () (processDispatch env sr m true c.sess.nextIn) c = ⟨.ok (), c1, e1⟩) :
     processMessage env sr m c = pre e1 (finalizeMessage env m c1) := by
   unfold processMessage
   rw [bind_ok (validateIntegrity_good c m h), pre_nil]
   simp only []
-  rw [bind_ok (swallow_ok (processHead_active env c m ha h hr)), pre_nil]
+  rw [bind_ok (swallow_ok (processHead_on env c m h8 h hr)), pre_nil]
   simp only []
   rw [bind_ok hd]
   simp
@@ -121,12 +141,12 @@ theorem run_of_pre {x y : M Unit} {c c1 : Conn} {e1 : List Effect} (h : x c = pr
   generalize y c1 = o
   rcases o with ⟨r | a, c2, e2⟩ <;> simp [pre]
 
-theorem recv_active (sr : Msg → Bool) (env : Env) (c c1 : Conn) (m : Msg) (e1 : List Effect)
-    (ha : c.state = st_ACTIVE) (h : InSeq c m) (hr : Routine m)
+theorem recv_on (sr : Msg → Bool) (env : Env) (c c1 : Conn) (m : Msg) (e1 : List Effect)
+    (h8 : 8 ≤ c.state) (h : InSeq c m) (hr : Routine m)
     (hd : swallow () (processDispatch env sr m true c.sess.nextIn) c = ⟨.ok (), c1, e1⟩) :
     recv sr env c m =
       (((finalizeMessage env m).run c1).1, e1 ++ ((finalizeMessage env m).run c1).2) :=
-  run_of_pre (processMessage_active sr env c c1 m e1 ha h hr hd)
+  run_of_pre (processMessage_on sr env c c1 m e1 h8 h hr hd)
 
 theorem InSeq.congr {c c1 : Conn} {m : Msg} (h : InSeq c m) (h1 : c1.sess.nextIn = c.sess.nextIn)
     (h2 : c1.sess.sender = c.sess.sender) (h3 : c1.sess.target = c.sess.target) : InSeq c1 m :=
